@@ -293,7 +293,7 @@ class Message(MessageBase):  # add _expired attr
     Adds _expired attr to the Message class.
     """
 
-    CANT_EXPIRE = -1  # sentinel value for fraction_expired
+    CANT_EXPIRE = float("-inf")  # sentinel value for fraction_expired (can't be an age)
 
     HAS_EXPIRED = 2.0  # fraction_expired >= HAS_EXPIRED
     # .HAS_DIED = 1.0  # fraction_expired >= 1.0 (is expected lifespan)
